@@ -791,7 +791,7 @@ func chunkSegment(init *mp4.InitSegment, seg *mp4.MediaSegment, segMeta segMeta,
 		}
 	}
 	if thisChunkDur > 0 {
-		ch.dur = uint64(chunkDur)
+		ch.dur = uint64(thisChunkDur) // The last chunk may be shorter than the others
 		chunks = append(chunks, ch)
 	}
 
